@@ -23,12 +23,6 @@ vars == <<mine, other, cas, now, phase>>
 UMine == DescsOf(TsSet, LiveSt, FALSE)
 URaw  == DescsOf(TsSet, LiveSt, TRUE)
 
-StateIx(s) == CASE s = "ABSENT" -> 0 [] s = "ACTIVE" -> 1 [] s = "LEAVING" -> 2 [] s = "PENDING" -> 3
-                [] s = "JOINING" -> 4 [] s = "LEFT" -> 5
-Rank(d) == LET W(i) == i * (7 * d[i].ts + 3 * StateIx(d[i].state) + Cardinality(d[i].toks))
-               f[k \in 0..N] == IF k = 0 THEN 0 ELSE f[k - 1] + W(k)
-           IN  f[N]
-
 Init == /\ mine \in {d \in UMine : Rank(d) % NSlices = Slice}
         /\ other = Empty /\ cas = FALSE /\ now = 0
         /\ phase = "seed"
